@@ -13,8 +13,8 @@ CH = "CrossHair symbolic execution (z3) of a bounded operation-sequence harness 
 
 CHECKS = {
     "C02": dict(
-        text="Every clause of the weight/evidence/ESS specification is an SMT obligation over all log-density vectors of N<=3 (quick) / N<=5 (thorough) samples, on every feasible path of the real Samples.compute_weights / logsumexp / effective_sample_size / rejection_sample; two-run hyper-properties (permutation, constant shift) are proved in one query.",
-        note="Reals for floats (ulp rounding outside); generic namespace branch only; generator stub returns arbitrary draws in (0,1); float constants equal to math.log(k) are read as ln k.",
+        text="Every clause of the weight/evidence/ESS specification is an SMT obligation over all log-density vectors of N<=3 (quick) / N<=5 (thorough) samples, on every feasible path of the real Samples.compute_weights / logsumexp / effective_sample_size / rejection_sample; two-run hyper-properties (permutation, constant shift) are proved in one query. The float clause is decided in the FP sort (Float64 and Float32, N=2; N=3 thorough): for all finite log-weights up to 1e5 and for vectors with -inf entries, log_evidence and the ESS are finite and the relative evidence error is never NaN.",
+        note="Reals for floats (ulp rounding outside); generic namespace branch only; generator stub returns arbitrary draws in (0,1); float constants equal to math.log(k) are read as ln k; FP exp/log are uninterpreted with range/monotonicity axioms, FP arithmetic is first abstracted soundly; accuracy (as opposed to finiteness) at extreme magnitudes is not decided.",
         ref="6/C02",
     ),
     "C03": dict(
@@ -28,7 +28,7 @@ CHECKS = {
         ref="6/C04",
     ),
     "C05": dict(
-        text="sampler.log_prob(z, beta) of SMCSampler, MiniPCNSMC, BlackJAXSMC and MCMCSampler equals (1-beta) Q(x) + beta (L(x)+PI(x)) + log|det dx/dz| row-wise for symbolic beta in (0,1], arbitrary pre-image/log-Jacobian (stub transform) and the real Identity/Composite transforms, with L, PI, Q uninterpreted (UF congruence exposes evaluation at the wrong point); the zero-prior => -inf and never-NaN clauses are FP-sort (Float64 and Float32) obligations over all IEEE values incl. +-inf/NaN.",
+        text="sampler.log_prob(z, beta) of SMCSampler, MiniPCNSMC, BlackJAXSMC and MCMCSampler equals (1-beta) Q(x) + beta (L(x)+PI(x)) + log|det dx/dz| row-wise for symbolic beta in (0,1], arbitrary pre-image/log-Jacobian (stub transform) and the real Identity/Composite transforms, with L, PI, Q uninterpreted (UF congruence exposes evaluation at the wrong point); the zero-prior => -inf and never-NaN clauses are FP-sort (Float64 and Float32) obligations over all IEEE values incl. +-inf/NaN, also with immutable arrays (the JAX update discipline that utils.update_at_indices supports).",
         note="User functions and the proposal are uninterpreted functions of the coordinates; FP obligations are first decided on a sound special-value abstraction of IEEE arithmetic and bit-precisely otherwise; kernels themselves and jax tracing outside.",
         ref="6/C05",
     ),
@@ -43,17 +43,17 @@ CHECKS = {
         ref="6/C07",
     ),
     "C08": dict(
-        text="Whole SMC runs of the real MiniPCNSMC/EmceeSMC sample() loop with symbolic populations, kernel outputs and resample indices: every recorded per-step ratio equals log mean exp((b'-b)(L+PI-Q)) recomputed from the population stored before that step's resampling (via uninterpreted L, PI, Q of the stored coordinates), every per-step variance equals Var(w)/(N mean(w)^2), log_evidence is their sum and log_evidence_error the root of the summed variances, with and without final-sample enlargement.",
+        text="Whole SMC runs of the real MiniPCNSMC/EmceeSMC sample() loop with symbolic populations, kernel outputs and resample indices: every recorded per-step ratio equals log mean exp((b'-b)(L+PI-Q)) recomputed from the population stored before that step's resampling (via uninterpreted L, PI, Q of the stored coordinates), every per-step variance equals Var(w)/(N mean(w)^2), log_evidence is their sum and log_evidence_error the root of the summed variances, with and without final-sample enlargement, and again on runs resumed from a checkpoint (bytes and the live in-memory dictionary: every step summed exactly once). A function-level FP-sort configuration covers populations with zero-weight (log-likelihood -inf) particles: the ratio is the library's logsumexp over ALL particles minus log N.",
         note="Loop harness bounds: N=2 (quick) / N<=3 (thorough) particles, d=1, <=2 (quick) / <=4 (thorough) iterations, schedules fixed 1/2(/4), adaptive with min_step 1/2 (and max_n_steps, unbounded in thorough; paths reaching the unrolling bound are counted as cut); user functions, proposal, generator and MCMC kernels are stubs (uninterpreted functions / symbolic streams / fake kernel modules); SMCSampler.sample is a logging-stripped copy of the current source with beta_tolerance 1/4.",
         ref="6/C08",
     ),
     "C10": dict(
-        text="For every population a run hands out or records (initial, each history entry, final, and the same in every resumed run): stored log_likelihood/log_prior/log_q of row i equal L, PI, Q of row i's coordinates (UF congruence: a value paired with another row's coordinates is refutable), initial and final sizes as requested. The initial-population harness in the FP sort lets the prior be -inf/NaN per row so that the finite-prior filter, concatenation and trimming of draw_initial_samples run symbolically.",
+        text="For every population a run hands out or records (initial, each history entry, final, and the same in every resumed run): stored log_likelihood/log_prior/log_q of row i equal L, PI, Q of row i's coordinates (UF congruence: a value paired with another row's coordinates is refutable), initial and final sizes as requested. The initial-population harness in the FP sort lets the prior be -inf/NaN per row so that the finite-prior filter, concatenation and trimming of draw_initial_samples run symbolically (up to 3 draw rounds); one loop configuration runs with the real bounded (logit) preconditioning transform.",
         note="Loop harness bounds: N=2 (quick) / N<=3 (thorough) particles, d=1, <=2 (quick) / <=4 (thorough) iterations, schedules fixed 1/2(/4), adaptive with min_step 1/2 (and max_n_steps, unbounded in thorough; paths reaching the unrolling bound are counted as cut); user functions, proposal, generator and MCMC kernels are stubs (uninterpreted functions / symbolic streams / fake kernel modules); SMCSampler.sample is a logging-stripped copy of the current source with beta_tolerance 1/4. FP harness: N<=2 requested, <=2 draw rounds (cut beyond), Float64.",
         ref="6/C10",
     ),
     "C11": dict(
-        text="Two runs per path: a reference run checkpointing every iteration (payload serialised with the sampler's own serialize_checkpoint; symbolic populations survive pickling) and, for every checkpoint, a fresh sampler with a generator in a different state resumed from the bytes / the unpickled dict / a real HDF5 file written by default_file_checkpoint_callback after a fault injected at every likelihood call; the solver shows equal temperature ladders, populations, evidence and every history series.",
+        text="Two runs per path: a reference run checkpointing every iteration (payload serialised with the sampler's own serialize_checkpoint; symbolic populations survive pickling) and, for every checkpoint, a fresh sampler with a generator in a different state resumed from the bytes / the unpickled dict / the very dictionary handed to the callback (after the run moved on) / a real HDF5 file written by default_file_checkpoint_callback after a fault injected at every likelihood call; the solver shows equal temperature ladders, populations, evidence and every history series.",
         note="Loop harness bounds: N=2 (quick) / N<=3 (thorough) particles, d=1, <=2 (quick) / <=4 (thorough) iterations, schedules fixed 1/2(/4), adaptive with min_step 1/2 (and max_n_steps, unbounded in thorough; paths reaching the unrolling bound are counted as cut); user functions, proposal, generator and MCMC kernels are stubs (uninterpreted functions / symbolic streams / fake kernel modules); SMCSampler.sample is a logging-stripped copy of the current source with beta_tolerance 1/4. Known finding C11-D6 (rescaled min_step not checkpointed) is listed in known_findings.json; Aspire.resume_from_file route not exercised.",
         ref="6/C11",
     ),
@@ -64,8 +64,8 @@ CHECKS = {
     ),
     "C14": dict(
         engine="CH",
-        text="CrossHair explores every program of up to 3 (quick) / 4 (thorough) operations over 9 operation kinds (fit with/without path and overwrite, importance/SMC sampling with explicit, automatic or no checkpoint path, auto_checkpoint contexts with refit inside, resume_from_file then sample) on one file through the real Aspire.fit / sample_posterior / auto_checkpoint / resume_from_file / save_config / save_flow / load_flow; after every operation the stored proposal must be the one the stored checkpoint was weighted under, the stored configuration must name the sampler that wrote it, and a resumed sampler must not receive a population weighted under another proposal. Only 'Confirmed over all paths' counts; one condition per first operation keeps each search exhaustible.",
-        note="File, flow and samplers are dict-backed fakes (flow identity tags); four known-finding regions (C14-D8a..d, known_findings.json) are excluded by violated clause and operation kind and each is re-confirmed concretely on every run.",
+        text="CrossHair explores every program of up to 3 (quick) / 4 (thorough) operations over 10 operation kinds (fit with/without path and overwrite, importance/SMC sampling with explicit, automatic or no checkpoint path, auto_checkpoint contexts with refit inside, resume_from_file then sample) on one file through the real Aspire.fit / sample_posterior / auto_checkpoint / resume_from_file / save_config / save_flow / load_flow; after every operation the stored proposal must be the one the stored checkpoint was weighted under, the stored configuration must name the sampler that wrote it, and a resumed sampler must not receive a population weighted under another proposal. Only 'Confirmed over all paths' counts; one condition per first operation keeps each search exhaustible.",
+        note="File, flow and samplers are dict-backed fakes (flow identity tags); five known-finding regions (C14-D8a..e, known_findings.json) are excluded by violated clause and operation kind and each is re-confirmed concretely on every run.",
         ref="6/C14",
     ),
     "C16": dict(
@@ -75,12 +75,12 @@ CHECKS = {
     ),
     "C19": dict(
         engine="CH",
-        text="CrossHair confirms over all paths that for every nesting (depth <= 3 quick, 4 thorough) of the real enable_pool/PoolHandler and auto_checkpoint contexts, with an exception injected at every position or none, both close_pool values, parallelize_prior on/off and pre-existing checkpoint defaults or none: log_likelihood, log_prior and _checkpoint_defaults are the identical objects after leaving each level, and each pool is closed exactly once iff asked.",
+        text="CrossHair confirms over all paths that for every nesting (depth <= 3 quick, 4 thorough) of the real enable_pool/PoolHandler and auto_checkpoint contexts, with an exception injected at every position or none, both close_pool values, parallelize_prior on/off, pre-existing checkpoint defaults or none and same-path or distinct-path nesting: log_likelihood, log_prior and _checkpoint_defaults are the identical objects with unchanged content after leaving each level, and each pool is closed exactly once iff asked.",
         note="Pool is a fake counting close()/join(); an exception raised inside __enter__ itself is outside.",
         ref="6/C19",
     ),
     "C17": dict(
-        text="The likelihood stub poses, at every call made during whole runs (initial draws, kernel target evaluations, post-mutation re-evaluation, final enlargement, resumed runs), the obligations that the sample set it receives carries a log_prior of the right length equal to PI of exactly those coordinates, and at the end that n_likelihood_evaluations equals the number of points it was asked for; also on sampler.log_prob directly (C05 harness) .",
+        text="The likelihood stub poses, at every call made during whole runs (initial draws, kernel target evaluations, post-mutation re-evaluation, final enlargement, resumed runs), the obligations that the sample set it receives carries a log_prior of the right length equal to PI of exactly those coordinates, and at the end that n_likelihood_evaluations equals the number of points it was asked for; function-level configurations cover the importance sampler, Aspire.convert_to_samples and, in the FP sort (prior may be -inf per point), the multi-round initial draw and the kernel targets when every point is outside the prior.",
         note="Loop harness bounds: N=2 (quick) / N<=3 (thorough) particles, d=1, <=2 (quick) / <=4 (thorough) iterations, schedules fixed 1/2(/4), adaptive with min_step 1/2 (and max_n_steps, unbounded in thorough; paths reaching the unrolling bound are counted as cut); user functions, proposal, generator and MCMC kernels are stubs (uninterpreted functions / symbolic streams / fake kernel modules); SMCSampler.sample is a logging-stripped copy of the current source with beta_tolerance 1/4.",
         ref="6/C17",
     ),
@@ -90,12 +90,12 @@ CHECKS = {
         ref="6/C18",
     ),
     "C20": dict(
-        text="Partial. Two executions on the same symbolic random stream yield identical terms for every output and history series, and random-source provenance: every draw is served by the generator object the user supplied through the sampler constructor, through sample(rng=...) and through the real Aspire.sample_posterior keyword routing; construction of any fresh generator is observed.",
+        text="Partial. Two executions on the same symbolic random stream yield identical terms for every output and history series, and random-source provenance: every draw is served by the generator object the user supplied through the sampler constructor, through sample(rng=...) and through the real Aspire.sample_posterior keyword routing; numpy.random.default_rng and orng.ArrayRNG are instrumented: a draw served by a generator the library constructed itself is a violation.",
         note="Loop harness bounds: N=2 (quick) / N<=3 (thorough) particles, d=1, <=2 (quick) / <=4 (thorough) iterations, schedules fixed 1/2(/4), adaptive with min_step 1/2 (and max_n_steps, unbounded in thorough; paths reaching the unrolling bound are counted as cut); user functions, proposal, generator and MCMC kernels are stubs (uninterpreted functions / symbolic streams / fake kernel modules); SMCSampler.sample is a logging-stripped copy of the current source with beta_tolerance 1/4. Flow construction/training seeds (torch.manual_seed, JAX keys) and third-party kernels are outside; known finding C20-D10.",
         ref="6/C20",
     ),
     "C09": dict(
-        text="For the real SMCSamples.resample: the probability vector handed to the generator is proportional to exp((b1-b0)(ll+lp-lq)) and sums to one, and with a symbolic index vector (one ite-select path covers all N^M index vectors) every output row equals its source row in x, log_likelihood, log_prior and log_q; new beta, requested size, parameters and dtype preserved.",
+        text="For the real SMCSamples.resample: the probability vector handed to the generator is proportional to exp((b1-b0)(ll+lp-lq)) and sums to one, and with a symbolic index vector (one ite-select path covers all N^M index vectors) every output row equals its source row in x, log_likelihood, log_prior and log_q; new beta, requested size, parameters and dtype preserved; also on an object whose weights were inspected and whose fields were then re-assigned.",
         note="Temperatures on the grid {0,1/4,1/2,3/4,1}; N<=3 (quick) / N<=4 (thorough), d=2; generator stub; reals for floats.",
         ref="6/C09",
     ),
